@@ -4,7 +4,7 @@
     [tlb_set_id], [inval_match].  Whole stacks: [accepts k tr] is the verified acceptor of the
     translation view (k = log2 of the page size the stack is configured with); every history
     observed at the component boundaries of REAL stacks must be accepted. *)
-From Akita Require Import Lib.Base C25.Model C25.Proofs.
+From Akita Require Import Lib.Base C25.Model C25.Proofs C25.Proofs2.
 Local Open Scope N_scope.
 
 (** Kernel: for every page size 2^k (k < 64), every frame aligned to it and every 64-bit
@@ -205,3 +205,315 @@ Proof.
   apply andb_true_iff. split; [apply N.leb_le; exact L|apply N.ltb_lt; exact U].
 Qed.
 Print Assumptions c25_model_agreement_implies_property.
+
+(* ====================================================================================== *)
+(** Exactly once.  [accepts_stack ntlb k tr] = the translation-view acceptor + identifiers are
+    never reused ([ids_fresh]) + the coalescing clause ([coalesced]: below each of the [ntlb] TLB
+    levels at most one request per (PID, page) is outstanding).  All theorems hold for EVERY
+    accepted history, i.e. for every order and delay of the lower levels' answers. *)
+
+Lemma accepts_stack_parts n k tr : accepts_stack n k tr = true ->
+  accepts k tr = true /\ NoDup (req_keys tr) /\ NoDup (acc_ids tr) /\ coalesced n k tr = true.
+Proof.
+  unfold accepts_stack, ids_fresh. intro H.
+  apply andb_true_iff in H. destruct H as [H H3]. apply andb_true_iff in H. destruct H as [H1 H2].
+  apply andb_true_iff in H2. destruct H2 as [H2 H4].
+  repeat split; auto using nodup_keyb_sound, nodupNb_sound.
+Qed.
+
+(** A translation request is answered at most once at its level. *)
+Theorem c25_answered_at_most_once : forall n k pre b r d p v pa vl post,
+  accepts_stack n k (pre ++ ERsp b r d p v pa vl :: post) = true ->
+  forall d' p' v' pa' vl', ~ In (ERsp b r d' p' v' pa' vl') post.
+Proof.
+  intros n k pre b r d p v pa vl post H. destruct (accepts_stack_parts _ _ _ H) as [A [ND _]].
+  destruct (c25_response_matches_request _ _ _ _ _ _ _ _ _ _ A) as [va0 [Hreq _]].
+  destruct (accepts_split _ _ _ _ A) as [s [s1 [s2 [R0 [S R]]]]].
+  assert (pend_nodup s) as PN by (eapply pend_nodup_run; [|exact R0]; constructor).
+  cbn [tstep] in S. destruct (take_pend b r (t_pend s)) as [[x rest]|] eqn:T; [|discriminate].
+  destruct (_ && _); [|discriminate]. inversion S; subst s1.
+  destruct (take_pend_nodup _ _ _ _ _ PN T) as [_ [NP _]].
+  eapply not_pending_never_answered; [exact R|exact NP|].
+  rewrite req_keys_app in ND. cbn [req_keys] in ND.
+  eapply NoDup_app_disjoint; [exact ND|]. eapply in_req_keys; eauto.
+Qed.
+Print Assumptions c25_answered_at_most_once.
+
+(** EXACTLY once, to the original requester, with the original ID, for the requested page, with a
+    current (or not yet invalidated) mapping: when the run has ended, every translation request
+    delivered at any level has exactly one response of that level after it. *)
+Theorem c25_translation_exactly_once : forall n k tr p1 b id src pid va p2,
+  accepts_stack n k (tr ++ [EEnd]) = true -> tr = p1 ++ EReq b id src pid va :: p2 ->
+  exists q1 pa q2, p2 = q1 ++ ERsp b id src pid (at_vpage k va) pa true :: q2 /\
+    (forall d' p' v' pa' vl', ~ In (ERsp b id d' p' v' pa' vl') q1) /\
+    (forall d' p' v' pa' vl', ~ In (ERsp b id d' p' v' pa' vl') q2) /\
+    permitted_in (pt_view (p1 ++ EReq b id src pid va :: q1)) (pid, at_vpage k va) pa = true.
+Proof.
+  intros n k tr p1 b id src pid va p2 H ->.
+  destruct (accepts_stack_parts _ _ _ H) as [A [ND _]].
+  destruct (c25_answered k _ A) as [An _].
+  destruct (An p1 b id src pid va p2 eq_refl) as [d [p0 [v0 [pa [vl Hin]]]]].
+  (* the FIRST response to (b, id) in p2 *)
+  assert (exists q1 d p v pa vl q2, p2 = q1 ++ ERsp b id d p v pa vl :: q2 /\
+            forall d' p' v' pa' vl', ~ In (ERsp b id d' p' v' pa' vl') q1) as [q1 [d1 [pp [vv [pa1 [vl1 [q2 [E NF]]]]]]]].
+  { clear - Hin. induction p2 as [|e r IH]; [destruct Hin|].
+    destruct (match e with ERsp b' r' _ _ _ _ _ => (b' =? b) && (r' =? id) | _ => false end) eqn:M.
+    - destruct e; try discriminate. apply andb_true_iff in M. destruct M as [M1 M2]. apply N.eqb_eq in M1, M2. subst.
+      exists [], dst, pid, vaddr, paddr, valid, r. split; [reflexivity|intros ? ? ? ? ? []].
+    - destruct Hin as [->|Hin]; [cbn in M; rewrite !N.eqb_refl in M; discriminate|].
+      destruct (IH Hin) as [q1 [d1 [pp [vv [pa1 [vl1 [q2 [E NF]]]]]]]].
+      exists (e :: q1), d1, pp, vv, pa1, vl1, q2. split; [rewrite E; reflexivity|].
+      intros d' p' v' pa' vl' [Q|Q]; [subst e; cbn in M; rewrite !N.eqb_refl in M; discriminate|exact (NF _ _ _ _ _ Q)]. }
+  subst p2.
+  assert (HH : accepts_stack n k ((p1 ++ EReq b id src pid va :: q1) ++ ERsp b id d1 pp vv pa1 vl1 :: (q2 ++ [EEnd])) = true).
+  { rewrite <- H. f_equal. repeat (rewrite <- app_assoc; cbn [app]). reflexivity. }
+  destruct (accepts_stack_parts _ _ _ HH) as [A2 [ND2 _]].
+  destruct (c25_response_matches_request _ _ _ _ _ _ _ _ _ _ A2) as [va0 [Hreq [Ev Evl]]].
+  pose proof (c25_page_current_or_permitted _ _ _ _ _ _ _ _ _ _ A2) as PM.
+  (* the matching request is this one: identifiers are not reused *)
+  assert (EReq b id d1 pp va0 = EReq b id src pid va) as EQ.
+  { rewrite req_keys_app in ND2. cbn [req_keys] in ND2.
+    apply in_app_or in Hreq. destruct Hreq as [Q|[Q|Q]]; [| symmetry; exact Q |].
+    - exfalso. rewrite req_keys_app in ND2. cbn [req_keys] in ND2. rewrite <- app_assoc in ND2.
+      apply (NoDup_app_disjoint _ _ (b, id) ND2 (in_req_keys _ _ _ _ _ _ Q)). left. reflexivity.
+    - exfalso. rewrite req_keys_app in ND2. cbn [req_keys] in ND2. rewrite <- app_assoc in ND2. cbn [app] in ND2.
+      apply NoDup_remove_2 in ND2. apply ND2. apply in_or_app. right. apply in_or_app. left.
+      eapply in_req_keys; eauto. }
+  inversion EQ; subst d1 pp va0. subst vv vl1.
+  exists q1, pa1, q2. split; [reflexivity|]. split; [exact NF|]. split; [|exact PM].
+  intros d' p' v' pa' vl' Q.
+  apply (c25_answered_at_most_once _ _ _ _ _ _ _ _ _ _ _ HH d' p' v' pa' vl'). apply in_or_app. left. exact Q.
+Qed.
+Print Assumptions c25_translation_exactly_once.
+
+(** Coalescing: below a TLB level at most one request per (PID, page) is outstanding — a request
+    for a page is sent down only after every earlier request of that TLB for the same page has
+    been answered by the level below (later lookups wait in the MSHR entry; they are all answered
+    by [c25_translation_exactly_once] at the level above). *)
+Theorem c25_coalesced_one_below : forall n k pre b id src pid va post,
+  accepts_stack n k (pre ++ EReq b id src pid va :: post) = true -> 1 <= b <= n ->
+  forall p1 id' va' p2, pre = p1 ++ EReq b id' src pid va' :: p2 -> at_vpage k va' = at_vpage k va ->
+  exists d p v pa vl, In (ERsp b id' d p v pa vl) p2.
+Proof.
+  intros n k pre b id src pid va post H Hb p1 id' va' p2 -> Epg.
+  destruct (accepts_stack_parts _ _ _ H) as [_ [_ [_ C]]]. unfold coalesced in C.
+  rewrite <- app_assoc in C. cbn [app] in C. rewrite crun_app in C.
+  destruct (crun n k [] p1) as [o1|]; [|discriminate]. cbn [crun] in C.
+  assert ((1 <=? b) && (b <=? n) = true) as InR by (apply andb_true_iff; split; apply N.leb_le; lia).
+  cbn [cstep] in C. rewrite InR in C.
+  destruct (existsb _ o1); [discriminate|].
+  rewrite crun_app in C.
+  destruct (crun n k (mk_cout b id' src pid (at_vpage k va') :: o1) p2) as [o2|] eqn:R2; [|discriminate].
+  cbn [crun cstep] in C. rewrite InR in C.
+  destruct (existsb (fun o => (o_b o =? b) && (o_src o =? src) && (o_pid o =? pid) && (o_page o =? at_vpage k va)) o2) eqn:EX; [discriminate|].
+  destruct (cout_until _ _ _ _ _ (mk_cout b id' src pid (at_vpage k va')) R2 (or_introl eq_refl)) as [Q|Q]; [|exact Q].
+  exfalso. assert (existsb (fun o => (o_b o =? b) && (o_src o =? src) && (o_pid o =? pid) && (o_page o =? at_vpage k va)) o2 = true) as T.
+  { apply existsb_exists. eexists. split; [exact Q|]. cbn. rewrite Epg, !N.eqb_refl. reflexivity. }
+  congruence.
+Qed.
+Print Assumptions c25_coalesced_one_below.
+
+Definition is_accrsp (id : N) (e : ev) : bool := match e with EAccRsp r _ => r =? id | _ => false end.
+Definition is_bot (id : N) (e : ev) : bool := match e with EBot r _ => r =? id | _ => false end.
+
+(** EXACTLY once for accesses: when the run has ended, every access delivered to the address
+    translator was forwarded exactly once — to frame + offset of a current (or not yet
+    invalidated) mapping of its (PID, page) — and afterwards answered exactly once, to its own
+    requester under its own ID. *)
+Theorem c25_access_exactly_once : forall n k tr p1 id src pid va p2,
+  accepts_stack n k (tr ++ [EEnd]) = true -> tr = p1 ++ EAcc id src pid va :: p2 ->
+  exists q1 paddr q2 q3 frame,
+    p2 = q1 ++ EBot id paddr :: q2 ++ EAccRsp id src :: q3 /\
+    (forall e, In e (q1 ++ q2 ++ q3) -> is_bot id e = false) /\
+    (forall e, In e (q1 ++ q2 ++ q3) -> is_accrsp id e = false) /\
+    permitted_in (pt_view (p1 ++ EAcc id src pid va :: q1)) (pid, at_vpage k va) frame = true /\
+    at_paddr k frame va = Some paddr.
+Proof.
+  intros n k tr p1 id src pid va p2 H ->.
+  destruct (accepts_stack_parts _ _ _ H) as [A [_ [NDA _]]].
+  (* no other access carries this id *)
+  assert (NI1 : ~ In id (acc_ids p1) /\ ~ In id (acc_ids p2)).
+  { rewrite acc_ids_app, acc_ids_app in NDA. cbn [acc_ids] in NDA. rewrite <- app_assoc in NDA. cbn [app] in NDA.
+    split.
+    - intro Q. apply (NoDup_app_disjoint _ _ id NDA Q). left. reflexivity.
+    - apply NoDup_remove_2 in NDA. intro Q. apply NDA. apply in_or_app. right. apply in_or_app. left. exact Q. }
+  destruct NI1 as [NI1 NI2].
+  (* the answer exists ... *)
+  destruct (c25_answered k _ A) as [_ An]. destruct (An p1 id src pid va p2 eq_refl) as [d0 Hrsp].
+  assert (existsb (is_accrsp id) p2 = true) as EX.
+  { apply existsb_exists. eexists. split; [exact Hrsp|]. cbn. apply N.eqb_refl. }
+  destruct (first_split _ _ EX) as [r1 [x [r2 [-> [Px Nr1]]]]].
+  destruct x; try discriminate. cbn in Px. apply N.eqb_eq in Px. subst rspTo.
+  (* ... it goes to the requester, and the access was forwarded before it *)
+  assert (A1 : accepts k ((p1 ++ EAcc id src pid va :: r1) ++ EAccRsp id dst :: (r2 ++ [EEnd])) = true).
+  { rewrite <- A. f_equal. repeat (rewrite <- app_assoc; cbn [app]). reflexivity. }
+  destruct (accrsp_has_acc_and_bot _ _ _ _ _ A1) as [[pid' [va' Hacc]] [pa Hbot]].
+  assert (dst = src) as ->.
+  { apply in_app_or in Hacc. destruct Hacc as [Q|[Q|Q]].
+    - exfalso. apply NI1. eapply in_acc_ids; eauto.
+    - inversion Q; reflexivity.
+    - exfalso. apply NI2. rewrite acc_ids_app. apply in_or_app. left. eapply in_acc_ids; eauto. }
+  (* the forwarding happened after the delivery: before it there is no access with this id *)
+  assert (In (EBot id pa) r1) as Hb1.
+  { apply in_app_or in Hbot. destruct Hbot as [Q|[Q|Q]]; [|discriminate|exact Q]. exfalso.
+    apply in_split in Q. destruct Q as [u1 [u2 Eu]].
+    assert (accepts k (u1 ++ EBot id pa :: u2) = true) as Au.
+    { rewrite <- Eu. apply (accepts_prefix k p1 (EAcc id src pid va :: r1 ++ EAccRsp id src :: r2 ++ [EEnd])).
+      rewrite <- A. f_equal. repeat (rewrite <- app_assoc; cbn [app]). reflexivity. }
+    destruct (c25_access_reaches_mapped_address _ _ _ _ _ Au) as [s0 [pd [v0 [fr [Q _]]]]].
+    apply NI1. rewrite Eu, acc_ids_app. apply in_or_app. left. eapply in_acc_ids; eauto. }
+  assert (existsb (is_bot id) r1 = true) as EXb.
+  { apply existsb_exists. eexists. split; [exact Hb1|]. cbn. apply N.eqb_refl. }
+  destruct (first_split _ _ EXb) as [q1 [y [q2 [-> [Py Nq1]]]]].
+  destruct y; try discriminate. cbn in Py. apply N.eqb_eq in Py. subst id0.
+  (* the frame *)
+  assert (A2 : accepts k ((p1 ++ EAcc id src pid va :: q1) ++ EBot id paddr :: (q2 ++ EAccRsp id src :: r2 ++ [EEnd])) = true).
+  { rewrite <- A. f_equal. repeat (rewrite <- app_assoc; cbn [app]). reflexivity. }
+  destruct (c25_access_reaches_mapped_address _ _ _ _ _ A2) as [s0 [pd [v0 [fr [Hacc2 [Perm AP]]]]]].
+  assert (EAcc id s0 pd v0 = EAcc id src pid va) as EQ.
+  { apply in_app_or in Hacc2. destruct Hacc2 as [Q|[Q|Q]].
+    - exfalso. apply NI1. eapply in_acc_ids; eauto.
+    - symmetry. exact Q.
+    - exfalso. apply NI2. rewrite !acc_ids_app. apply in_or_app. left. apply in_or_app. left. eapply in_acc_ids; eauto. }
+  inversion EQ; subst s0 pd v0.
+  exists q1, paddr, q2, r2, fr. split; [repeat (rewrite <- app_assoc; cbn [app]); reflexivity|].
+  (* uniqueness: run the acceptor to the two points *)
+  destruct (accepts_split _ _ _ _ A2) as [sa [sb [sc [Ra [Sa Rb]]]]].
+  assert (acc_nodup sa) as NDa by (eapply acc_nodup_run; [|exact Ra]; constructor).
+  assert (NI3 : ~ In id (acc_ids q2) /\ ~ In id (acc_ids r2)).
+  { split; intro Q; apply NI2; repeat (rewrite acc_ids_app; cbn [acc_ids]); apply in_or_app.
+    - left. apply in_or_app. right. exact Q.
+    - right. exact Q. }
+  destruct NI3 as [NIq2 NIr2].
+  assert (NIq : ~ In id (acc_ids (q2 ++ EAccRsp id src :: r2 ++ [EEnd]))).
+  { repeat (rewrite acc_ids_app; cbn [acc_ids]). rewrite app_nil_r. intro Q. apply in_app_or in Q. tauto. }
+  assert (SENTb : forall x, In x (t_acc sb) -> x_id x = id -> x_sent x = true).
+  { cbn [tstep] in Sa. destruct (take_acc id (t_acc sa)) as [[x0 rest]|] eqn:T; [|discriminate].
+    destruct (_ && _); [|discriminate]. inversion Sa; subst sb. cbn [t_acc].
+    destruct (take_acc_nodup _ _ _ _ NDa T) as [_ [NB _]].
+    intros x [<-|Hx] Ex; [reflexivity|]. exfalso. apply NB. apply in_map_iff. exists x. auto. }
+  pose proof (proj2 (acc_gone_stays_gone k _ _ _ id Rb NIq) SENTb) as NoBot.
+  assert (A3 : accepts k ((p1 ++ EAcc id src pid va :: q1 ++ EBot id paddr :: q2) ++ EAccRsp id src :: (r2 ++ [EEnd])) = true).
+  { rewrite <- A. f_equal. repeat (rewrite <- app_assoc; cbn [app]). reflexivity. }
+  destruct (accepts_split _ _ _ _ A3) as [ta [tb [tc [Rta [Sta Rtb]]]]].
+  assert (acc_nodup ta) as NDt by (eapply acc_nodup_run; [|exact Rta]; constructor).
+  assert (GONE : ~ In id (map x_id (t_acc tb))).
+  { cbn [tstep] in Sta. destruct (take_acc id (t_acc ta)) as [[x0 rest]|] eqn:T; [|discriminate].
+    destruct (_ && _); [|discriminate]. inversion Sta; subst tb. cbn [t_acc].
+    exact (proj1 (proj2 (take_acc_nodup _ _ _ _ NDt T))). }
+  assert (NIr : ~ In id (acc_ids (r2 ++ [EEnd]))).
+  { rewrite acc_ids_app. cbn [acc_ids]. rewrite app_nil_r. exact NIr2. }
+  destruct (proj1 (acc_gone_stays_gone k _ _ _ id Rtb NIr) GONE) as [NoRsp2 NoBot2].
+  split; [|split; [|split; [exact Perm|exact AP]]].
+  - intros e He. destruct (is_bot id e) eqn:B; [|reflexivity]. exfalso.
+    destruct e; try discriminate. cbn in B. apply N.eqb_eq in B. subst id0.
+    apply in_app_or in He. destruct He as [Q|Q].
+    { pose proof (Nq1 _ Q) as Z. cbn in Z. rewrite N.eqb_refl in Z. discriminate. }
+    apply (NoBot paddr0). apply in_app_or in Q. destruct Q as [Q|Q]; apply in_or_app; [left; exact Q|].
+    right. right. apply in_or_app. left. exact Q.
+  - intros e He. destruct (is_accrsp id e) eqn:B; [|reflexivity]. exfalso.
+    destruct e; try discriminate. cbn in B. apply N.eqb_eq in B. subst rspTo.
+    apply in_app_or in He. destruct He as [Q|Q].
+    + assert (is_accrsp id (EAccRsp id dst) = false) as Z by (apply Nr1; apply in_or_app; left; exact Q).
+      cbn in Z. rewrite N.eqb_refl in Z. discriminate.
+    + apply in_app_or in Q. destruct Q as [Q|Q].
+      * assert (is_accrsp id (EAccRsp id dst) = false) as Z by (apply Nr1; apply in_or_app; right; right; exact Q).
+        cbn in Z. rewrite N.eqb_refl in Z. discriminate.
+      * apply (NoRsp2 dst). apply in_or_app. left. exact Q.
+Qed.
+Print Assumptions c25_access_exactly_once.
+
+(** No access is forwarded with a stale frame after the invalidation was acknowledged. *)
+Lemma permitted_after_inv pre pid vp mid p :
+  (forall q, ~ In (EPT pid vp q) mid) ->
+  permitted_in (pt_view (pre ++ EInv pid vp :: mid)) (pid, vp) p = true ->
+  pt_lookup (pid, vp) (fst (pt_view pre)) = Some p.
+Proof.
+  intros NoPT P. unfold permitted_in, pt_view in P. rewrite fold_left_app in P. cbn [fold_left] in P.
+  unfold pt_view. destruct (fold_left pt_step pre ([], [])) as [pt0 stale0].
+  cbn [pt_step] in P. cbn [fst].
+  remember (pt0, filter (fun e : key * N => negb (key_eqb (fst e) (pid, vp))) stale0) as st1 eqn:E1.
+  assert (forall e, In e (snd (fold_left pt_step mid st1)) -> key_eqb (fst e) (pid, vp) = false) as NS.
+  { apply (stale_clean pid vp mid NoPT st1).
+    intros e He. rewrite E1 in He. cbn [snd] in He. apply filter_In in He. destruct He as [_ He].
+    destruct (key_eqb (fst e) (pid, vp)); [discriminate|reflexivity]. }
+  pose proof (pt_lookup_unchanged pid vp mid NoPT st1) as PT.
+  replace (fst st1) with pt0 in PT by (rewrite E1; reflexivity).
+  apply orb_true_iff in P. destruct P as [P|P].
+  - rewrite PT in P. destruct (pt_lookup (pid, vp) pt0) as [q|]; [|discriminate].
+    apply N.eqb_eq in P. subst. reflexivity.
+  - apply existsb_exists in P. destruct P as [e [He Hk]]. apply andb_true_iff in Hk. destruct Hk as [Hk _].
+    rewrite (NS e He) in Hk. discriminate.
+Qed.
+
+Theorem c25_invalidate_effective_access : forall k pre pid vp mid id paddr post,
+  accepts k (pre ++ EInv pid vp :: mid ++ EBot id paddr :: post) = true ->
+  (forall q, ~ In (EPT pid vp q) mid) ->
+  exists src pid' va frame, In (EAcc id src pid' va) (pre ++ EInv pid vp :: mid) /\
+    at_paddr k frame va = Some paddr /\
+    (pid' = pid -> at_vpage k va = vp -> pt_lookup (pid, vp) (fst (pt_view pre)) = Some frame).
+Proof.
+  intros k pre pid vp mid id paddr post H NoPT.
+  replace (pre ++ EInv pid vp :: mid ++ EBot id paddr :: post)
+    with ((pre ++ EInv pid vp :: mid) ++ EBot id paddr :: post) in H by (rewrite <- app_assoc; reflexivity).
+  destruct (c25_access_reaches_mapped_address _ _ _ _ _ H) as [src [pid' [va [frame [Hacc [Perm AP]]]]]].
+  exists src, pid', va, frame. split; [exact Hacc|]. split; [exact AP|].
+  intros -> <-. eapply permitted_after_inv; eauto.
+Qed.
+Print Assumptions c25_invalidate_effective_access.
+
+(** Non-vacuity of the exactly-once theorems: one TLB level (boundary 0) above an MMU (boundary
+    1).  Three accesses of one page while the miss is outstanding: three lookups at the TLB, ONE
+    request below, all three answered; then the page is remapped, the invalidation acknowledged,
+    and three more coalesced misses get the new frame.  And what the added clauses reject. *)
+Example c25_exactly_once_nonvacuous :
+  accepts_stack 1 12
+    [EPT 1 4096 65536;
+     EAcc 10 1 1 4100; EAcc 11 1 1 4104; EAcc 12 1 1 4108;
+     EReq 0 20 2 1 4096; EReq 0 21 2 1 4096; EReq 0 22 2 1 4096;
+     EReq 1 30 3 1 4096; ERsp 1 30 3 1 4096 65536 true;
+     ERsp 0 20 2 1 4096 65536 true; ERsp 0 21 2 1 4096 65536 true; ERsp 0 22 2 1 4096 65536 true;
+     EBot 10 65540; EBot 11 65544; EBot 12 65548; EAccRsp 10 1; EAccRsp 11 1; EAccRsp 12 1;
+     EPT 1 4096 131072; EInv 1 4096;
+     EAcc 13 1 1 4100; EAcc 14 1 1 4104; EAcc 15 1 1 4108;
+     EReq 0 23 2 1 4096; EReq 0 24 2 1 4096; EReq 0 25 2 1 4096;
+     EReq 1 31 3 1 4096; ERsp 1 31 3 1 4096 131072 true;
+     ERsp 0 23 2 1 4096 131072 true; ERsp 0 24 2 1 4096 131072 true; ERsp 0 25 2 1 4096 131072 true;
+     EBot 13 131076; EBot 14 131080; EBot 15 131084; EAccRsp 13 1; EAccRsp 14 1; EAccRsp 15 1; EEnd] = true /\
+  (* a second request below for the same page while the first is outstanding *)
+  accepts_stack 1 12 [EPT 1 4096 65536; EReq 0 20 2 1 4096; EReq 0 21 2 1 4096; EReq 1 30 3 1 4096; EReq 1 31 3 1 4096] = false /\
+  (* a request answered twice (the identifier would have to be reused) *)
+  accepts_stack 1 12 [EPT 1 4096 65536; EReq 1 30 3 1 4096; ERsp 1 30 3 1 4096 65536 true;
+                      EReq 1 30 3 1 4096; ERsp 1 30 3 1 4096 65536 true; EEnd] = false /\
+  (* one of three coalesced lookups never answered *)
+  accepts_stack 1 12 [EPT 1 4096 65536; EReq 0 20 2 1 4096; EReq 0 21 2 1 4096; EReq 0 22 2 1 4096;
+                      EReq 1 30 3 1 4096; ERsp 1 30 3 1 4096 65536 true;
+                      ERsp 0 20 2 1 4096 65536 true; ERsp 0 21 2 1 4096 65536 true; EEnd] = false /\
+  (* a coalesced lookup answered from the stale entry after the invalidation *)
+  accepts_stack 1 12 [EPT 1 4096 65536; EPT 1 4096 131072; EInv 1 4096; EReq 0 20 2 1 4096; EReq 0 21 2 1 4096;
+                      EReq 1 30 3 1 4096; ERsp 1 30 3 1 4096 131072 true;
+                      ERsp 0 20 2 1 4096 131072 true; ERsp 0 21 2 1 4096 65536 true; EEnd] = false.
+Proof. vm_compute. repeat split. Qed.
+
+(** Link between the two evaluators, all kernel probes: agreement with the model implies the
+    property predicate on the observed numbers.  (For stack histories [holds_on] IS the acceptor:
+    trace inclusion is evaluated directly, there is no separate model output to agree with.) *)
+Theorem c25_kernel_agreement_implies_property : forall c,
+  match c with
+  | ATCase _ _ vaddr _ _ _ => vaddr < two64
+  | TLBCase _ _ _ _ _ _ _ _ _ => True
+  | StackCase _ _ _ _ => False
+  end ->
+  check_case c = true -> holds_on c = true.
+Proof.
+  intros [k pid vaddr ppage ov op|psize nsets nways vaddr os addrs fpid cached lft|k n tr cl] W CK; [|clear W|destruct W].
+  - exact (c25_model_agreement_implies_property k pid vaddr ppage ov op W CK).
+  - cbn [check_case] in CK. apply andb_true_iff in CK. destruct CK as [_ CK].
+    assert (lft = filter (fun pg => negb (inval_match psize addrs fpid (fst pg) (snd pg))) cached) as ->.
+    { symmetry. apply (list_eqb_eq pair_eqb); [|exact CK]. intros [a1 a2] [b1 b2]. unfold pair_eqb. cbn [fst snd].
+      rewrite andb_true_iff, !N.eqb_eq. split; [intros [-> ->]; reflexivity|intro Q; inversion Q; auto]. }
+    cbn [holds_on]. apply andb_true_iff. split; apply forallb_forall; intros pg Hpg; apply filter_In in Hpg; destruct Hpg as [H1 H2].
+    + exact H2.
+    + apply existsb_exists. exists pg. split; [exact H1|]. unfold pair_eqb. rewrite !N.eqb_refl. reflexivity.
+Qed.
+Print Assumptions c25_kernel_agreement_implies_property.
